@@ -809,7 +809,10 @@ ProcDecl:
 ProcBody:
         ProcLocalDeclList States LocFlags Init Transitions
 	| ProcLocalDeclList States Branchpoints LocFlags Init Transitions
-	| /* empty */
+	| /* empty */ {
+          /* a process without states has no initial location either */
+          CALL(@$, @$, handle_error(TypeException{"$Missing_initial_location"}));
+        }
         ;
 
 ProcLocalDeclList:
